@@ -69,7 +69,7 @@ func c20Stop(x *mc.Cell, sc Scenario) {
 				// a message handled after Stop parks its handler goroutine in the stopped state-machine group for
 				// good - observation (c) of DESIGN 9.3, not a goroutine blocked on a lock of this library)
 				w.Drop()
-				time.Sleep(24 * time.Hour)
+				time.Sleep(10 * time.Minute)
 				mc.Wait()
 				x.Premise++
 				x.Outcome(fmt.Sprintf("%s|%s|%d", sc, who, steps))
